@@ -788,6 +788,16 @@ func (c *Ctx) c18Batch() {
 					wops = append(wops, codecOp{kind: "loop", item: itemName(info, x.X, locals), pos: x.Pos()})
 					walk(x.Body.List)
 					wops = append(wops, codecOp{kind: "endloop"})
+				case *ast.ForStmt:
+					// for i := 0; i < len(X); i++: the same loop in index form
+					item := "?"
+					if be, ok := ast.Unparen(x.Cond).(*ast.BinaryExpr); x.Cond != nil && ok {
+						item = itemName(info, be.Y, locals)
+						item = strings.TrimSuffix(strings.TrimPrefix(item, "len("), ")")
+					}
+					wops = append(wops, codecOp{kind: "loop", item: item, pos: x.Pos()})
+					walk(x.Body.List)
+					wops = append(wops, codecOp{kind: "endloop"})
 				case *ast.ExprStmt:
 					call, ok := x.X.(*ast.CallExpr)
 					if !ok {
@@ -870,6 +880,11 @@ func (c *Ctx) c18Batch() {
 					}
 				}
 				switch x := st.(type) {
+				case *ast.RangeStmt:
+					// for i := range result.Messages: the same loop in range form
+					rops = append(rops, codecOp{kind: "loop", item: itemName(info, x.X, locals), pos: x.Pos()})
+					walk(x.Body.List)
+					rops = append(rops, codecOp{kind: "endloop"})
 				case *ast.ForStmt:
 					item := "?"
 					if be, ok := ast.Unparen(x.Cond).(*ast.BinaryExpr); x.Cond != nil && ok {
